@@ -10,6 +10,9 @@ S2 streams
                 (class PySpec below, cross-checked against the Lean Spec on every case: stream spec-transcription) is
                 the fallback oracle when the Lean side does not build.
   net-sim       the flattened netlist of the real block vs Net.Sim running the generated leaves (dump_ir.NetBatch)
+  netlist-import / netlist-run   the netlist builders of Lib/SeqNet.lean, Lib/SeqNetM.lean, Lib/SeqMem.lean = the live constructors'
+                netlists; the list-state netlists (memories inside a netlist) are also RUN under Net.Sim by the driver and
+                compared with the live simulator
   reach         exhaustive exploration of the reachable state graph (full simulator snapshot: wire values + leaf
                 attributes) of tiny configurations: every transition from every reachable state vs model and Spec
 """
@@ -38,6 +41,11 @@ OBLIGATIONS = [
     'FlatM.propagate_combfix', 'FlatM.CertSrc.topoCheckG_sound',
     # dual-port memory: generated clock (Gen/C09.lean via harness/targets.d/C09.json)
     'C09.dualPort_read_before_write',
+    # memories inside a netlist (Props/C09NetMem.lean; leaves with list state, stateful propagate)
+    'SeqMem.propagate_fixpoint', 'SeqMem.propagate_propfix', 'SeqMem.edge_sim', 'C09S.cycle', 'C09S.init_state', 'C09S.init_attr',
+    'C09S.netTrace_sim', 'C09S.smemQ_ck', 'C09S.dmemQ_ck', 'C09S.smem_embedded_from', 'C09S.smem_embedded', 'C09S.smem_embedded_content',
+    'C09S.dmem_embedded', 'C09S.amem_pass', 'C09S.regQ_ck', 'C09S.ramPipeNet_ok', 'C09S.ramPipe_net', 'C09S.ramPipe_refines',
+    'C09S.dpNet_ok', 'C09S.amNet_sched', 'C06.inv_clk', 'C06.inv_power_upC',
     # leaf bridges the block models rest on
     'Leaf.gen_and2', 'Leaf.gen_or2', 'Leaf.gen_not', 'Leaf.gen_buf', 'Leaf.gen_mux2', 'Leaf.gen_const', 'Leaf.gen_addc',
 ]
@@ -101,7 +109,7 @@ class Block:
             self.ins, self.outs = [('a', a), ('en', en), ('reset', rs)], [r_]
         elif k == 'Pipe':
             rs = W('reset', 1)
-            ins = [W(f'i{j}', w) for j, w in enumerate(p['ws'])]
+            ins = [W(f'i{j}', w) for j, w in enumerate(p.get('iws', p['ws']))]     # lane input may be wider / narrower than its register
             outs = [W(f'o{j}', w) for j, w in enumerate(p['ws'])]
             S.PipelinePhase(s, 'dut', rs, ins, outs)
             self.ins, self.outs = [('reset', rs)] + [(f'd{j}', x) for j, x in enumerate(ins)], outs
@@ -142,7 +150,7 @@ class Block:
             ws = {}
             for port in 'ab':
                 ws[port] = [W('ra' + port, p['aw']), W('wa' + port, p['aw']), W('we' + port, 1), W('rd' + port, p['dw']),
-                            W('wd' + port, p['dw'])]
+                            W('wd' + port, p.get('wdw', p['dw']))]
             a, b = ws['a'], ws['b']
             S.DualPortSynchronousMemory(s, 'dut', a[0], a[1], a[2], a[3], a[4], b[0], b[1], b[2], b[3], b[4])
             self.ins = [('raa', a[0]), ('waa', a[1]), ('wea', a[2]), ('wda', a[4]), ('rab', b[0]), ('wab', b[1]),
@@ -152,6 +160,37 @@ class Block:
             r_ = W('reset', 1)
             C.AutoReset(s, 'dut', r_)
             self.ins, self.outs = [('dummy', None)], [r_]
+        elif k == 'RamPipe':
+            # a memory INSIDE a netlist (Lib/SeqMem.lean ramPipeNet): address driven by a register, readdata feeding a
+            # register through a combinational leaf.  Wire names = canonical numbering of the Lean builder.
+            from py4hw.logic.bitwise import Buf
+            aw, dw, ww = p['aw'], p['dw'], p.get('ww', p['dw'])
+            ws = [W('w1', aw), W('w2', aw), W('w3', 1), W('w4', ww), W('w5', aw), W('w6', dw), W('w7', dw), W('w8', dw)]
+            S.Reg(s, 'ra_reg', ws[0], ws[4])
+            S.SynchronousMemory(s, 'mem', ws[4], ws[1], ws[2], ws[5], ws[3])
+            Buf(s, 'rdbuf', ws[5], ws[6])
+            S.Reg(s, 'out_reg', ws[6], ws[7])
+            self.ins, self.outs = [('ra', ws[0]), ('wa', ws[1]), ('we', ws[2]), ('wd', ws[3])], [ws[7]]
+            self.canon = ws
+        elif k == 'DpNet':
+            from py4hw.logic.bitwise import Buf
+            aw, dw = p['aw'], p['dw']
+            wd_ = [aw, aw, 1, dw, dw, aw, aw, 1, dw, dw, dw]
+            ws = [W(f'w{j + 1}', x) for j, x in enumerate(wd_)]
+            S.DualPortSynchronousMemory(s, 'mem', ws[0], ws[1], ws[2], ws[4], ws[3], ws[5], ws[6], ws[7], ws[9], ws[8])
+            Buf(s, 'abuf', ws[4], ws[10])
+            # the bench pokes wires 1..9 — including wire 5 = readdata_a, a DRIVEN wire (the theorems allow arbitrary pokes)
+            self.ins, self.outs = [(f'w{j + 1}', ws[j]) for j in range(9)], [ws[4], ws[9], ws[10]]
+            self.canon = ws
+        elif k == 'AmNet':
+            from py4hw.logic.bitwise import Buf
+            aw, dw = p['aw'], p['dw']
+            wd_ = [aw, aw, 1, dw, dw, dw]
+            ws = [W(f'w{j + 1}', x) for j, x in enumerate(wd_)]
+            S.AsynchronousMemory(s, 'mem', ws[0], ws[1], ws[2], ws[4], ws[3])
+            Buf(s, 'obuf', ws[4], ws[5])
+            self.ins, self.outs = [(f'w{j + 1}', ws[j]) for j in range(4)], [ws[4], ws[5]]
+            self.canon = ws
         else:
             raise ValueError(k)
 
@@ -202,7 +241,7 @@ class Block:
         n = type(l).__name__
         if n == 'Reg':
             return ('v', l.value)
-        if n in ('SynchronousMemory', 'DualPortSynchronousMemory'):
+        if n in ('SynchronousMemory', 'DualPortSynchronousMemory', 'AsynchronousMemory'):
             return ('m', tuple(l.data))
         if n == 'AutoReset':
             return ('s', l.state)
@@ -251,7 +290,7 @@ def driver_params(kind, p):
         return [p['dir']]
     if kind == 'Div':
         return [p['n'], p['qw'], p['n_spec']]
-    if kind in ('Mem', 'DualPort'):
+    if kind in ('Mem', 'DualPort', 'RamPipe'):
         return [p['aw'], p['dw']]
     return []
 
@@ -287,6 +326,8 @@ class PySpec:
             self.s = ({}, 0)
         elif k == 'DualPort':
             self.s = ({}, 0, 0)
+        elif k == 'RamPipe':
+            self.s = (0, {}, 0, 0)      # address register, memory, readdata, output register
 
     def step(self, i):
         k, p, s = self.k, self.p, self.s
@@ -377,6 +418,14 @@ class PySpec:
             if i[6] != 0:
                 mem[i[5]] = i[7]
             s = (mem, rda, rdb)
+        elif k == 'RamPipe':
+            ra, wa, we, wd = i
+            raq, mem, rd, out = s
+            nmem = mem
+            if we != 0:
+                nmem = dict(mem)
+                nmem[wa] = wd
+            s = (ra, nmem, mem.get(raq, 0) % (1 << p['dw']), rd)
         elif k == 'AutoReset':
             s = s + 1
         self.s = s
@@ -405,6 +454,8 @@ class PySpec:
             return [s[1]]
         if k == 'DualPort':
             return [s[1], s[2]]
+        if k == 'RamPipe':
+            return [s[3]]
         if k == 'AutoReset':
             return [1 if s in (1, 2) else 0]
 
@@ -429,8 +480,8 @@ def rand_params(kind, r, tier):
         rvk = r.randint(0, 5)
         rv = 0 if rvk == 0 else r.bits(w) if rvk < 4 else r.randint(-(1 << w), (1 << (w + 1)))
         p = dict(w=w, rv=rv, hasE=r.chance(2, 3), hasR=r.chance(2, 3))
-        if r.chance(1, 4):
-            p['dw'] = w + r.randint(1, 3)
+        if r.chance(1, 3):
+            p['dw'] = max(1, w + r.choice([-2, -1, 1, 2, 3]))          # d narrower / wider than q
         if r.chance(1, 4):
             p['ew'] = 2
         if r.chance(1, 4):
@@ -443,8 +494,8 @@ def rand_params(kind, r, tier):
     if kind == 'StepUp':
         w = W()
         p = dict(w=w, hasReset=r.chance(3, 4), hasInc=int(r.chance(3, 4)))
-        if r.chance(1, 4):
-            p['sw'] = max(1, w + r.randint(-2, 2))
+        if r.chance(1, 2):                                             # step narrower / wider than the count
+            p['sw'] = r.choice(list(range(1, w)) + [w + 1, w + 2])
         return p
     if kind == 'Mod':
         w = r.choice([1, 2, 3, 4, 5, 8] + ([12] if big else []))
@@ -452,7 +503,10 @@ def rand_params(kind, r, tier):
     if kind == 'Delay':
         return dict(w=W(), delay=r.randint(0, 6 if not big else 12), hasEn=r.chance(2, 3), hasReset=r.chance(2, 3))
     if kind == 'Pipe':
-        return dict(ws=[W() for _ in range(r.randint(1, 5))])
+        p = dict(ws=[W() for _ in range(r.randint(1, 5))])
+        if r.chance(1, 2):                                             # lane inputs narrower / wider than the lane registers
+            p['iws'] = [max(1, w + r.choice([-1, 0, 1, 2])) for w in p['ws']]
+        return p
     if kind == 'Srb':
         return dict(w=W(), depth=r.randint(1, 6 if not big else 12))
     if kind == 'Stack':
@@ -464,10 +518,13 @@ def rand_params(kind, r, tier):
         # freq_in/(2*freq_out) = n exactly, or with a fractional part (constructor truncates and warns)
         fout = r.choice([1, 5, 50])
         return dict(fin=2 * fout * n + r.choice([0, 0, fout]), fout=fout, hasReset=r.chance(2, 3))
+    if kind == 'RamPipe':
+        dw = W()
+        return dict(aw=r.randint(1, 4 if not big else 6), dw=dw, ww=max(1, dw + r.choice([-2, -1, 0, 0, 1, 2])))
     if kind in ('Mem', 'DualPort'):
         p = dict(aw=r.randint(1, 4 if not big else 6), dw=W())
-        if kind == 'Mem' and r.chance(1, 4):
-            p['wdw'] = p['dw'] + 2
+        if r.chance(1, 3):                                             # writedata narrower / wider than readdata
+            p['wdw'] = max(1, p['dw'] + r.choice([-2, -1, 1, 2]))
         return p
     return {}
 
@@ -493,6 +550,8 @@ def rand_hist(kind, blk, r, n):
                 if w == 2 and r.chance(1, 3):
                     v = r.randint(0, 3)
                 st.append(v)
+            elif r.chance(1, 4):      # boundary values of the field: 0, 1, top bit only, all ones, all ones but the top bit
+                st.append(r.choice([0, 1, 1 << (w - 1), (1 << w) - 1, (1 << (w - 1)) - 1]))
             else:
                 st.append(r.bits(w) if not r.chance(1, 10) else r.randint(0, (1 << (w + 1))))
         if kind == 'Stack':
@@ -506,7 +565,7 @@ def rand_hist(kind, blk, r, n):
 
 
 NET_SIM_STEPS = 24
-KINDS = ['Reg', 'TReg', 'Counter', 'StepUp', 'Mod', 'Delay', 'Pipe', 'Srb', 'Stack', 'Edge', 'Div', 'Mem', 'DualPort', 'AutoReset']
+KINDS = ['Reg', 'TReg', 'Counter', 'StepUp', 'Mod', 'Delay', 'Pipe', 'Srb', 'Stack', 'Edge', 'Div', 'Mem', 'DualPort', 'AutoReset', 'RamPipe']
 
 
 def enc_line(kind, p, eff):
@@ -595,7 +654,7 @@ class Cases:
 FIELDS = {'Reg': 'e,r,d', 'TReg': 't,e,r', 'Counter': 'reset,inc', 'StepUp': 'reset,inc,step', 'Mod': 'reset,inc',
           'Delay': 'a,en,reset', 'Pipe': 'reset,d0..', 'Srb': 'left_in,right_in,shift_left,shift_right',
           'Stack': 'din,push,pop', 'Edge': 'a', 'Div': 'reset', 'Mem': 'ra,wa,we,wd',
-          'DualPort': 'ra_a,wa_a,we_a,wd_a,ra_b,wa_b,we_b,wd_b', 'AutoReset': '-'}
+          'DualPort': 'ra_a,wa_a,we_a,wd_a,ra_b,wa_b,we_b,wd_b', 'AutoReset': '-', 'RamPipe': 'ra,wa,we,wd'}
 
 
 def ctl_signature(kind, st):
@@ -611,7 +670,7 @@ def ctl_signature(kind, st):
         return f'en{st[1]}reset{st[2]}'
     if kind == 'TReg':
         return f't{st[0]}e{st[1]}r{st[2]}'
-    if kind == 'Mem':
+    if kind in ('Mem', 'RamPipe'):
         return f'we{st[2]}' + ('_same' if st[0] == st[1] else '')
     if kind == 'DualPort':
         return f'wea{st[2]}web{st[6]}' + ('_collide' if st[1] == st[5] else '') + ('_bReadsAWrite' if st[4] == st[1] else '')
@@ -668,7 +727,13 @@ def tiny_configs(tier):
          ('Stack', dict(w=1, depth=2, flags=True)), ('Stack', dict(w=2, depth=1, flags=False)),
          ('Edge', dict(dir=0)), ('Edge', dict(dir=1)), ('Edge', dict(dir=2)),
          ('Div', dict(fin=4, fout=1, hasReset=1)), ('Div', dict(fin=6, fout=1, hasReset=1)), ('Div', dict(fin=2, fout=1, hasReset=0)),
-         ('Mem', dict(aw=1, dw=1)), ('DualPort', dict(aw=1, dw=1)), ('StepUp', dict(w=2, hasReset=True, hasInc=0)), ('AutoReset', dict())]
+         ('Mem', dict(aw=1, dw=1)), ('DualPort', dict(aw=1, dw=1)), ('StepUp', dict(w=2, hasReset=True, hasInc=0)), ('AutoReset', dict()),
+         # operand widths different from the state width (narrower and wider)
+         ('StepUp', dict(w=3, hasReset=True, hasInc=1, sw=2)), ('StepUp', dict(w=2, hasReset=True, hasInc=0, sw=3)),
+         ('Reg', dict(w=3, rv=5, hasE=True, hasR=True, dw=2)), ('Reg', dict(w=1, rv=0, hasE=True, hasR=True, dw=2)),
+         ('Pipe', dict(ws=[2, 1], iws=[1, 2])), ('Mem', dict(aw=1, dw=2, wdw=1)),
+         # a memory inside a netlist (address register -> SynchronousMemory -> Buf -> output register)
+         ('RamPipe', dict(aw=1, dw=1, ww=1))]
     if tier != 'quick':
         T += [('Reg', dict(w=3, rv=5, hasE=True, hasR=True, ew=2, rw=2)),
               ('Counter', dict(w=4, hasReset=True, hasInc=True)), ('StepUp', dict(w=3, hasReset=True, hasInc=1)),
@@ -692,6 +757,8 @@ def tiny_configs(tier):
               ('Div', dict(fin=2 * 23, fout=1, hasReset=1)), ('Div', dict(fin=64, fout=1, hasReset=1)), ('Div', dict(fin=66, fout=1, hasReset=0)),
               ('Div', dict(fin=2 * 100, fout=1, hasReset=1)),
               ('Mem', dict(aw=2, dw=2)), ('Mem', dict(aw=1, dw=2, wdw=3)), ('DualPort', dict(aw=1, dw=2)),
+              ('Pipe', dict(ws=[2, 2], iws=[3, 1])), ('Mem', dict(aw=1, dw=1, wdw=2)), ('DualPort', dict(aw=1, dw=2, wdw=1)),
+              ('RamPipe', dict(aw=1, dw=2, ww=1)), ('RamPipe', dict(aw=2, dw=1, ww=1)),
               ('StepUp', dict(w=3, hasReset=False, hasInc=0))]
     return T
 
@@ -938,12 +1005,105 @@ def netm_import(res, tier):
                                                 what='okb (side conditions of the netlist-level theorem) is false on the live instance'))
 
 
+# ------------------------------------------------------------------------------------------------ netlists with memories
+def render_live_s(blk):
+    """the LIVE netlist of a design with memories in the format of SeqMem.KNetS.render (wires named w<k> = canonical k)"""
+    num = {id(w): j + 1 for j, w in enumerate(blk.canon)}
+    used = set()
+
+    def W(*ws):
+        out = []
+        for w in ws:
+            if w is None:
+                out.append('0')
+            else:
+                out.append(str(num[id(w)]))
+                used.add(num[id(w)])
+        return ','.join(out)
+    pk, sk, pidx = [], [], {}
+    for l in blk.sys.allLeaves():
+        n = type(l).__name__
+        if n == 'Reg':
+            sk.append(f'Reg {int(l.reset_value)};{int(l.e is not None)};{int(l.r is not None)} : {W(l.e, l.r, l.d)} > {W(l.q)}')
+        elif n == 'SynchronousMemory':
+            sk.append(f'SynchronousMemory  : {W(l.read_address, l.write_address, l.write, l.writedata)} > {W(l.readdata)}')
+        elif n == 'DualPortSynchronousMemory':
+            sk.append('DualPortSynchronousMemory  : ' + W(l.read_address_a, l.write_address_a, l.write_a, l.writedata_a, l.read_address_b,
+                                                           l.write_address_b, l.write_b, l.writedata_b) + ' > ' + W(l.readdata_a, l.readdata_b))
+        elif n == 'AsynchronousMemory':
+            pidx[id(l)] = len(pk)
+            pk.append(f'AsynchronousMemory  : {W(l.read_address, l.write_address, l.write, l.writedata)} > {W(l.readdata)}')
+        elif n == 'Buf':
+            pidx[id(l)] = len(pk)
+            pk.append(f'Buf  : {W(l.a)} > {W(l.r)}')
+        else:
+            raise KeyError(f'leaf class {n} not expected in this design')
+        if (n in ('Reg', 'SynchronousMemory', 'DualPortSynchronousMemory')) != bool(l.isClockable()) or \
+                (n in ('AsynchronousMemory', 'Buf')) != bool(l.isPropagatable()):
+            raise KeyError(f'leaf class {n}: clockable/propagatable flags changed')
+    order = [pidx[id(o)] for o in blk.sim.propagatables]
+    clocked = [o for ds in blk.sim.clockDrivers.values() for o in ds.clockables]
+    if len(clocked) != len(sk):
+        raise KeyError('clocked leaves of the simulator differ from the clockable leaves of the design')
+    ws = sorted((k, blk.canon[k - 1].getWidth()) for k in used)
+    return ' ; '.join(pk) + ' | ' + ' ; '.join(sk) + ' | ' + ','.join(str(x) for x in order) + ' | ' + ','.join(f'{a}:{b}' for a, b in ws)
+
+
+def nets_configs(tier):
+    C = [('RamPipe', dict(aw=a, dw=d, ww=w)) for a, d, w in ([(1, 1, 1), (2, 4, 3), (3, 2, 5)] if tier == 'quick' else
+                                                            [(1, 1, 1), (2, 4, 3), (3, 2, 5), (4, 8, 8), (6, 33, 31), (10, 3, 3)])]
+    C += [(k, dict(aw=a, dw=d)) for k in ('DpNet', 'AmNet') for a, d in ([(1, 1), (2, 4)] if tier == 'quick' else [(1, 1), (2, 4), (3, 8), (5, 33)])]
+    return C
+
+
+def nets_import(res, tier, rng):
+    """memories INSIDE a netlist (Props/C09NetMem.lean): the live design = the Lean builder (SeqMem.KNetS), and that netlist
+    RUN under Net.Sim with the generated leaves (driver op netrun) = the live simulator, outputs before and after every edge"""
+    lines, jobs = [], []
+    for kind, p in nets_configs(tier):
+        try:
+            blk = Block(kind, p)
+            prm = [p['aw'], p['dw']] + ([p['ww']] if kind == 'RamPipe' else [])
+            lines.append(f"nets {kind} | {','.join(str(x) for x in prm)} | ")
+            jobs.append(('import', kind, p, render_live_s(blk)))
+            for j in range(3 if tier == 'quick' else 12):
+                r = rng.fork(('nets', kind, str(sorted(p.items())), j))
+                b2 = Block(kind, p)
+                hist = rand_hist(kind, b2, r, r.randint(1, 16 if tier == 'quick' else 40))
+                eff, real = b2.run(hist)
+                lines.append(f"netrun {kind} | {','.join(str(x) for x in prm)} | " + ';'.join(','.join(str(v) for v in st) for st in eff))
+                jobs.append(('run', kind, p, (eff, real)))
+                res.cov['evaluations'] += 1
+        except Exception as e:
+            res.disagree('netlist-import', dict(block=kind, params=p, what=f'cannot import / run the live netlist: {type(e).__name__}: {e}'))
+    try:
+        outs = run_driver('Drv/C09.lean', lines)
+    except ToolFailure as e:
+        res.broken.append(('correspondence', 'netlist-import', 'driver does not run: ' + str(e)[:300]))
+        return
+    norm = lambda t: ' '.join(t.split())
+    for (what, kind, p, x), ans in zip(jobs, outs):
+        if what == 'import':
+            res.hist('netlist_import', kind)
+            if norm(x) != norm(ans):
+                res.disagree('netlist-import', dict(block=kind, params=p, live=x, lean_builder=ans))
+        else:
+            eff, real = x
+            res.hist('netlist_run', kind)
+            mt = parse_trace(ans, 0)
+            for n in range(len(eff)):
+                if n >= len(mt) or (list(mt[n][0]), list(mt[n][1])) != (list(real[n][0]), list(real[n][1])):
+                    res.disagree('netlist-run', dict(block=kind, params=p, history=eff[:n + 1], step=n + 1,
+                                                     lean_netlist=mt[n] if n < len(mt) else None, real=real[n]))
+                    break
+
+
 # ------------------------------------------------------------------------------------------------ main
 def main(res, tier, rng, replay):
     ok, metas, errors, changed = regenerate()
     for e in errors:
         res.broken.append(('translator', 'py2lean', e))
-    res.proof_stage('Py4hwV.Props.C09NetM', OBLIGATIONS)
+    res.proof_stage('Py4hwV.Props.C09NetMem', OBLIGATIONS)
     quick = tier == 'quick'
     if ok:
         try:
@@ -954,6 +1114,7 @@ def main(res, tier, rng, replay):
             res.broken.append(('correspondence', 'T1', f'generated definitions do not run: {e}'))
     netlist_import(res, tier)
     netm_import(res, tier)
+    nets_import(res, tier, rng)
     cases = Cases(res)
     # corpus first
     cdir = os.path.join(VERIF, 'corpus', 'C09')
